@@ -275,7 +275,10 @@ func FlushPath(ctx context.Context, rt *Root, pth string) (ipld.Node, error) {
 		return nil, err
 	}
 
-	rt.repub.WaitPub(ctx)
+	// A root created without a PubFunc has no republisher to wait for.
+	if rt.repub != nil {
+		rt.repub.WaitPub(ctx)
+	}
 	return nd.GetNode()
 }
 
